@@ -76,6 +76,8 @@ SPLINE_T = {
                    [0.02, 0.5, 3.0, 40.0, 900.0], 0.25),
     # integers throughout
     'integer': ([-50, 0, 20, 80], [1, 5, 40, 900], 2),
+    # values that Python and YAML print in exponent notation
+    'tiny': ([-40.0, 10.0, 60.0], [1.2345e-05, 3.3e-07, 0.02], 1.5e-06),
 }
 PEATCLSM_SY = {
     'published': dict(sd=0.162, theta_s=0.88, b=7.4, psi_s=-0.024),
@@ -84,6 +86,7 @@ PEATCLSM_SY = {
 PEATCLSM_T = {
     'published-high': dict(Ksmacz0=7.3, alpha=3, zeta_max_cm=10.0),
     'other': dict(Ksmacz0=0.5, alpha=1.5, zeta_max_cm=6.0),
+    'tiny-ks': dict(Ksmacz0=7.3e-07, alpha=2.5, zeta_max_cm=8.0),
 }
 
 
